@@ -8,7 +8,7 @@ from func_adl.type_based_replacement import register_func_adl_os_collection, rem
 
 from vlib.sh.common import HI, LO, TWIN, L, attr, call, const, dump, lam, mcall, name, nt, pick, tick
 
-NPOSN = 9
+NPOSN = 11
 
 
 class Trk:
@@ -25,7 +25,15 @@ class Jet:
     def Tracks(self) -> Iterable[Trk]: ...  # noqa
 
 
+class Odd:
+    "the receiver is not called self (legal python)"
+    def m1(this, a: int) -> float: ...  # noqa
+    def m2(this, a: int, b: int) -> float: ...  # noqa
+    def m3(_, a: int, b: int, c: int) -> float: ...  # noqa
+
+
 class Evt:
+    def odd(self) -> Odd: ...  # noqa
     def m1(self, a: int) -> float: ...  # noqa
     def m2(self, a: int, b: int) -> float: ...  # noqa
     def m3(self, a: int, b: int, c: int) -> float: ...  # noqa
@@ -55,6 +63,18 @@ def fn2(a: int, b: int) -> float: ...  # noqa
 
 @func_adl_callable()
 def fn3(a: int, b: int, c: int) -> float: ...  # noqa
+
+
+@func_adl_callable()
+def fs1(self: int) -> float: ...  # noqa    (a function: a parameter called self is a parameter like any other)
+
+
+@func_adl_callable()
+def fs2(self: int, b: int) -> float: ...  # noqa
+
+
+@func_adl_callable()
+def fs3(a: int, self: int, c: int) -> float: ...  # noqa
 
 
 @func_adl_callable()
@@ -89,7 +109,15 @@ def target(pos, n):
         return getattr(Coll, "t%d" % n), "t%d" % n
     if pos in (7, 8):
         return getattr(Jet, "m%d" % n), "m%d" % n
+    if pos == 9:
+        return getattr(Odd, "m%d" % n), "m%d" % n
+    if pos == 10:
+        return [fs1, fs2, fs3][n - 1], "fs%d" % n
     return [fn1, fn2, fn3][n - 1], "fn%d" % n
+
+
+def is_method(pos):
+    return pos not in (5, 6, 10)
 
 
 def site(pos, fname, args, kws):
@@ -107,8 +135,10 @@ def site(pos, fname, args, kws):
         return s, mcall(attr("e", "j"), "Where", lam("j", ast.Compare(ast.Call(attr("j", fname), args, kws), [ast.Gt()], [const(0)])))
     if pos == 4:
         return TDS(), ast.Call(ast.Attribute(mcall(name("e"), "Jets"), fname, L), args, kws)
-    if pos == 5:
+    if pos in (5, 10):
         return TDS(), ast.BinOp(ast.Call(name(fname), args, kws), ast.Add(), const(1))
+    if pos == 9:
+        return TDS(), ast.Call(ast.Attribute(mcall(name("e"), "odd"), fname, L), args, kws)
     if pos == 7:
         # the receiver is the result of a registered function whose own call has to be normalised (default omitted)
         return TDS(), ast.Call(ast.Attribute(ast.Call(name("lead"), [name("e")], []), fname, L), args, kws)
@@ -129,20 +159,24 @@ def op_calls(n):
 
 def c07(code: int, ndef: int, npos: int, kwmask: int, perm: int, v0: int, v1: int, v2: int, d0: int, d1: int, d2: int) -> str:
     """
-    pre: LO <= code < HI and 0 <= code < 27
+    pre: LO <= code < HI and 0 <= code < 33
     pre: 0 <= ndef <= 3 and 0 <= npos <= 3 and 0 <= kwmask < 8 and 0 <= perm < 6
     post: (_ == '') != TWIN
     """
     code = pick(code, max(LO, 0), min(HI, NPOSN * 3))
     pos, n = code // 3, code % 3 + 1
-    ndef, npos, kwmask, perm = pick(ndef, 0, 4), pick(npos, 0, 4), pick(kwmask, 0, 8), pick(perm, 0, 6)
-    if ndef > n or npos > n or kwmask >= (1 << n) or (kwmask & ((1 << npos) - 1)):
+    # range checks first (one solver-decided branch each), case splits afterwards: no path is spent on combinations that are filtered out
+    if ndef > n or npos > n or kwmask >= (1 << n):
+        return ""
+    ndef, npos, kwmask = pick(ndef, 0, n + 1), pick(npos, 0, n + 1), pick(kwmask, 0, 1 << n)
+    if kwmask & ((1 << npos) - 1):
         return ""
     func, fname = target(pos, n)
-    pnames = [p for p in inspect.signature(func).parameters if p != "self"]
+    pnames = list(inspect.signature(func).parameters)[1 if is_method(pos) else 0:]
     kwidx = [i for i in range(n) if (kwmask >> i) & 1]
     if perm >= len(PERMS[len(kwidx)]):
         return ""
+    perm = pick(perm, 0, len(PERMS[len(kwidx)]))
     kwidx = [kwidx[i] for i in PERMS[len(kwidx)][perm]]
     vals = [v0, v1, v2]
     defaults = tuple([d0, d1, d2][n - ndef:n])
@@ -153,10 +187,9 @@ def c07(code: int, ndef: int, npos: int, kwmask: int, perm: int, v0: int, v1: in
     try:
         # oracle: Python's own binding
         try:
-            ba = inspect.signature(func).bind(*([None] if "self" in inspect.signature(func).parameters else []) + [a.value for a in args],
-                                              **{k.arg: k.value.value for k in kws})
+            ba = inspect.signature(func).bind(*([None] if is_method(pos) else []) + [a.value for a in args], **{k.arg: k.value.value for k in kws})
             ba.apply_defaults()
-            expect = [v for k, v in ba.arguments.items() if k != "self"]
+            expect = list(ba.arguments.values())[1 if is_method(pos) else 0:]
         except TypeError:
             expect = None
         stream, body = site(pos, fname, args, kws)
